@@ -1260,6 +1260,7 @@ impl Lexer<'_> {
                     try_lexing_numeric = false;
                     ws_mark = None;
                     self.cursor.advance();
+                    may_precede_mnemonic = false;
                 }
                 _ => {
                     // Not a terminator, just a regular character in the string
